@@ -209,6 +209,155 @@ func (w *lateWriter) Header() http.Header         { w.note(); return w.ResponseW
 func (w *lateWriter) Write(b []byte) (int, error) { w.note(); return w.ResponseWriter.Write(b) }
 func (w *lateWriter) WriteHeader(c int)           { w.note(); w.ResponseWriter.WriteHeader(c) }
 
+// ---- cancellation over the websocket protocol ----
+
+type wsMsg struct {
+	ID      string          `json:"id"`
+	Type    string          `json:"type"`
+	Message json.RawMessage `json:"message"`
+}
+
+type wsock struct {
+	in  chan wsMsg
+	mu  sync.Mutex
+	out []wsMsg
+}
+
+func (s *wsock) ReadJSON(v interface{}) error {
+	m, ok := <-s.in
+	if !ok {
+		return fmt.Errorf("socket closed")
+	}
+	b, _ := json.Marshal(m)
+	return json.Unmarshal(b, v)
+}
+func (s *wsock) WriteJSON(v interface{}) error {
+	b, err := json.Marshal(v)
+	if err != nil {
+		return err
+	}
+	var m wsMsg
+	json.Unmarshal(b, &m)
+	s.mu.Lock()
+	s.out = append(s.out, m)
+	s.mu.Unlock()
+	return nil
+}
+func (s *wsock) Close() error { return nil }
+func (s *wsock) got(id, typ string) bool {
+	s.mu.Lock()
+	defer s.mu.Unlock()
+	for _, m := range s.out {
+		if m.ID == id && m.Type == typ {
+			return true
+		}
+	}
+	return false
+}
+
+var wsPoints = []string{"unsubscribe.during.run", "close.during.run", "ctx.during.run", "unsubscribe.during.run.ignoring"}
+
+// wsCancelCase: a subscription whose resolver is still running (and honours cancellation by returning
+// ctx.Err(), or ignores it and finishes) is ended by unsubscribe / socket close / connection context
+// cancellation. The connection must keep serving its other subscriptions and ServeJSONSocket must return
+// once the socket is closed, leaving no goroutine behind.
+func wsCancelCase(point string) Rec {
+	rec := Rec{Kind: "cancel", Target: "websocket", Point: point}
+	base := runtime.NumGoroutine()
+	started := make(chan struct{}, 4)
+	release := make(chan struct{})
+	s := schemabuilder.NewSchema()
+	q := s.Query()
+	q.FieldFunc("wait", func(ctx context.Context) (int64, error) {
+		started <- struct{}{}
+		if strings.HasSuffix(point, ".ignoring") {
+			<-release
+			return 1, nil
+		}
+		<-ctx.Done()
+		return 0, ctx.Err()
+	})
+	q.FieldFunc("ping", func(ctx context.Context) int64 { return 1 })
+	s.Mutation()
+	sock := &wsock{in: make(chan wsMsg)}
+	ctx, cancel := context.WithCancel(context.Background())
+	defer cancel()
+	conn := graphql.CreateConnection(ctx, sock, s.MustBuild())
+	served := make(chan struct{})
+	go func() { conn.ServeJSONSocket(); close(served) }()
+	start := time.Now()
+	send := func(id, typ, query string) bool {
+		body, _ := json.Marshal(map[string]interface{}{"query": query, "variables": map[string]interface{}{}})
+		select {
+		case sock.in <- wsMsg{ID: id, Type: typ, Message: body}:
+			return true
+		case <-time.After(5 * time.Second):
+			return false
+		}
+	}
+	waitFor := func(f func() bool) bool {
+		deadline := time.Now().Add(5 * time.Second)
+		for time.Now().Before(deadline) {
+			if f() {
+				return true
+			}
+			time.Sleep(time.Millisecond)
+		}
+		return false
+	}
+	rec.Outcome, rec.Returned = "ok", true
+	fail := func(what string) Rec {
+		rec.Outcome, rec.Err, rec.Returned = "hang", what, false
+		rec.Ms = int(time.Since(start) / time.Millisecond)
+		return rec
+	}
+	if !send("1", "subscribe", "{ wait }") {
+		return fail("subscribe not read")
+	}
+	select {
+	case <-started:
+	case <-time.After(5 * time.Second):
+		return fail("resolver never started")
+	}
+	closed := false
+	switch {
+	case strings.HasPrefix(point, "unsubscribe"):
+		if !send("1", "unsubscribe", "") {
+			return fail("the connection no longer reads messages after the unsubscribe was sent")
+		}
+		if strings.HasSuffix(point, ".ignoring") {
+			time.Sleep(5 * time.Millisecond)
+			close(release)
+		}
+	case point == "ctx.during.run":
+		cancel()
+	default:
+		close(sock.in)
+		closed = true
+	}
+	if !closed && point != "ctx.during.run" {
+		// the connection still serves another subscription
+		if !send("2", "subscribe", "{ ping }") {
+			return fail("the connection is stuck: a second subscribe is not read")
+		}
+		if !waitFor(func() bool { return sock.got("2", "update") }) {
+			return fail("the connection is stuck: the second subscription is never answered")
+		}
+	}
+	if !closed {
+		close(sock.in)
+	}
+	select {
+	case <-served:
+	case <-time.After(5 * time.Second):
+		return fail("ServeJSONSocket does not return after the socket was closed")
+	}
+	rec.Ms = int(time.Since(start) / time.Millisecond)
+	cancel()
+	rec.Leaked = waitGoroutines(base, 2*time.Second)
+	return rec
+}
+
 // ---- hostile structured input ----
 
 var constructs = map[string]string{
@@ -368,6 +517,12 @@ func Main(args []string) error {
 	w, err := tj.NewWriter(*out)
 	if err != nil {
 		return err
+	}
+	// cancellation over the websocket protocol
+	for rep := 0; rep < 2; rep++ {
+		for _, p := range wsPoints {
+			w.Write(wsCancelCase(p))
+		}
 	}
 	// cancellation: fault enumeration
 	for _, target := range []string{"http", "federation"} {
